@@ -6,7 +6,7 @@ cd "$(dirname "$0")/.."
 for t in java gcc clang python3 ar nm objdump valgrind; do command -v $t >/dev/null || { echo "missing tool: $t"; exit 1; }; done
 test -f /opt/veriftools/tla/tla2tools.jar
 tmp=$(mktemp -d); trap 'rm -rf "$tmp"' EXIT
-cp -r spec "$tmp/spec"; cd "$tmp/spec"
+cp -r spec "$tmp/spec"; cp spec/isa/*.tla "$tmp/spec/" 2>/dev/null || true; rm -rf "$tmp/spec/isa"; cd "$tmp/spec"
 fail=0
 for f in *.tla isa/*.tla; do
   [ -f "$f" ] || continue
